@@ -684,6 +684,8 @@ impl Machine {
                                 out.push(x);
                             }
                         }
+                        // a clone of the iterator is an independent iterator over what is left
+                        let twin = it.clone();
                         for _ in 0..*nb {
                             log.push_str(&format!("{}{:?};", it.len(), it.size_hint()));
                             if let Some(x) = it.next_back() {
@@ -692,6 +694,7 @@ impl Machine {
                         }
                         log.push_str(&format!("{}{:?};", it.len(), it.size_hint()));
                         out.extend(it);
+                        out.push(M::Arr(twin.collect()));
                         md[*d] = M::Arr(out);
                         Out::Text(log)
                     }
@@ -1163,6 +1166,7 @@ impl Machine {
                         out.push(x);
                     }
                 }
+                let twin = it.clone();
                 for _ in 0..*nb {
                     log.push_str(&format!("{}{:?};", it.len(), it.size_hint()));
                     if let Some(x) = it.next_back() {
@@ -1171,6 +1175,8 @@ impl Machine {
                 }
                 log.push_str(&format!("{}{:?};", it.len(), it.size_hint()));
                 out.extend(it);
+                // the twin is polled after the original is exhausted and gone
+                out.push(Value::from(twin.collect::<Vec<Value>>()));
                 rg[*d] = Value::from(out);
                 Out::Text(log)
             }
